@@ -302,6 +302,41 @@ def run(prog, ctx):
                      "value comes out NULL instead of \"\")" % render(bad8)[:70], key="merge-depends-on-comments:%s" % hn)
         else:
             ctx.ok("K8", "%s: no decision depends on an entry's comments" % hn, h.where, "no branch on comment_before_key / comment_after_value")
+    # ---- K8b the same for the join of repeated keys: a test of an entry's comments may decide what happens to COMMENTS only - whether
+    # the value of that definition is joined / resets the collection must not depend on a comment line standing in front of it
+    if prog.has_fn("join_same_entries"):
+        jf = prog.fn("join_same_entries")
+        ctx.touch(jf)
+        jcfg = jf.cfg
+        headers = [jcfg.loop_header(x) for x in jf.walk() if x.k in ("ForStmt", "WhileStmt", "DoStmt")]
+        headers = [h9 for h9 in headers if h9 is not None]
+        vblocks = set()
+        for lhs, rhs, st, kind in query.stores(jf):
+            l0 = lhs.strip()
+            if l0.k == "MemberExpr" and l0.j.get("rec") == "file_entry" and not l0.j.get("member", "").startswith("comment"):
+                vblocks.add(jcfg.block_of(st))
+        for c9 in jf.calls(("asprintf", "free")):
+            if any(".value" in render(a9) or ".key" in render(a9) for a9 in c9.call_args()):
+                vblocks.add(jcfg.block_of(c9))
+        bad8 = None
+        for (b, i, s2) in jcfg.edges():
+            lit = jcfg.edge_lit(b, i)
+            if lit is None or not ("comment_before_key" in lit.atom or "comment_after_value" in lit.atom) or len(jcfg.blocks[b].succs) != 2:
+                continue
+            other = jcfg.blocks[b].succs[1 - i]
+            if other is None or s2 is None:
+                continue
+            r_this = jcfg.reachable(s2, avoid_blocks=headers) & vblocks
+            r_other = jcfg.reachable(other, avoid_blocks=headers) & vblocks
+            if r_this != r_other:
+                bad8 = bad8 or jcfg.blocks[b].cond
+        if bad8 is not None:
+            ctx.fail("K8", "join_same_entries: what happens to a value does not depend on the entry's comments", bad8.where,
+                     "the test `%s` decides whether the value of this definition is processed: the same line joins / resets differently with and without a "
+                     "comment line in front of it" % render(bad8)[:80], key="join-depends-on-comments")
+        else:
+            ctx.ok("K8", "join_same_entries: what happens to a value does not depend on the entry's comments", jf.where,
+                   "tests of comment fields guard stores to comment fields only (%d value sites)" % len(vblocks))
     k4(prog, ctx)
     k5(prog, ctx, L)
 
